@@ -5,7 +5,7 @@
     frames it handed to txfn appended, in order, to the frames in flight toward the peer.  Hence every
     theorem about lists of joint steps (Proofs/JointP.v) holds for every interleaving of process()
     calls of the two sides. *)
-From IsoTp Require Import Base.Prelude Model.Micro Model.Joint Spec.ConfigSpec Proofs.Events Proofs.MicroP Proofs.WireP Proofs.JointP.
+From IsoTp Require Import Base.Prelude Model.Micro Model.Joint Spec.ConfigSpec Proofs.Events Proofs.MicroP Proofs.WireP Proofs.JointP Proofs.TokenP.
 
 (** the net seen from side [sd]: its layer, its inbox, the peer's inbox, the peer's layer *)
 Definition mk (sd : side) (s : layer) (inb outb : list frame) (so : layer) : net :=
@@ -270,6 +270,23 @@ Theorem calls_transfer ta tb cls : Forall call_ok cls ->
 Proof.
   intros Hcl. destruct (crun_jrun cls (init_net ca cb ta tb) Hcl) as (ops & Hf & Hr).
   cbv zeta. rewrite <- Hr. exact (joint_transfer ca cb Hoka Hokb Hab Hba ta tb ops Hf).
+Qed.
+
+(** ... and, with non-reserved STmin parameters on both sides: unless a deadline error has been reported,
+    no error has been reported at all *)
+Theorem calls_only_deadlines ta tb cls :
+  stmin_valid (p_stmin (c_p ca)) = true -> stmin_valid (p_stmin (c_p cb)) = true -> Forall call_ok cls ->
+  let n := fst (crun ca cb (init_net ca cb ta tb) cls) in
+  let tr := snd (crun ca cb (init_net ca cb ta tb) cls) in
+  jto tr = true \/
+  (jerr tr = false /\
+   (exists later, sent_of SA tr = (recv_of SB tr ++ rx_queue (nB n)) ++ later) /\
+   (exists later, sent_of SB tr = (recv_of SA tr ++ rx_queue (nA n)) ++ later) /\
+   (at_rest n -> sent_of SA tr = recv_of SB tr ++ rx_queue (nB n) /\
+                 sent_of SB tr = recv_of SA tr ++ rx_queue (nA n))).
+Proof.
+  intros Hsa Hsb Hcl. destruct (crun_jrun cls (init_net ca cb ta tb) Hcl) as (ops & Hf & Hr).
+  cbv zeta. rewrite <- Hr. exact (joint_only_deadlines ca cb Hoka Hokb Hab Hba Hsa Hsb ta tb ops Hf).
 Qed.
 
 End Calls.
